@@ -174,6 +174,24 @@ pub fn differential(ctx: &Ctx, rep: &mut Report) {
     });
     rep.merge(r);
     rep.require("hashes_during_thread_exit", 20);
+    // VOLUME: one input hashed again and again on all cores
+    {
+        let inp = b"volume: the same salt and message".to_vec();
+        let want: Vec<i16> = spec::hash_to_point(&inp, 512).iter().map(|&x| x as i16).collect();
+        let reps = ctx.sz(200_000, 5_000_000);
+        let r = par_for(64, ncpu(), |ci, rep| {
+            for it in 0..reps / 64 {
+                let got = monitored(|| vh::hash_to_point(&inp, 512));
+                if got.as_ref().ok().map(|v| v.iter().map(|&x| x as i16).collect::<Vec<i16>>()) != Some(want.clone()) {
+                    rep.violation("h2p:not-a-function-of-its-input", format!("repetition {} of chunk {} of one fixed input differs from Algorithm 3", it, ci), json!({"kind": "h2p", "input": hex(&inp)}));
+                    break;
+                }
+            }
+            rep.count("repeated_hashes_of_one_input", (reps / 64) as u64);
+            rep.evaluations += (reps / 64) as u64;
+        });
+        rep.merge(r);
+    }
     rep.require("fingerprint_colliding_pairs", 12);
     rep.require("collide_siphash-write-lo32", 1);
     rep.require("collide_siphash-hash-lo32", 1);
